@@ -267,16 +267,6 @@ theorem runGPOps_popOK {ar : Nat → Nat} : ∀ (ops : List GPOp) (P P' : Pop), 
 
 /-! ### the initial forest: `_create_trees` grows the trees one after the other -/
 
-def growMany (cfg : GrowCfg) (k : Nat) : Nat → List Nat → Nat → Option (List PNode × List Nat × Nat)
-  | 0, ds, nid => some ([], ds, nid)
-  | n + 1, ds, nid =>
-    match grow cfg k ds nid with
-    | some (t, ds', nid') =>
-      match growMany cfg k n ds' nid' with
-      | some (ts, d, m) => some (t :: ts, d, m)
-      | none => none
-    | none => none
-
 theorem growMany_spec (cfg : GrowCfg) (k : Nat) : ∀ (n : Nat) (ds : List Nat) (nid : Nat) (ts : List PNode) (d : List Nat) (m : Nat),
     growMany cfg k n ds nid = some (ts, d, m) →
       nid ≤ m ∧ (∀ t ∈ ts, WF cfg.ar t) ∧ (∀ t ∈ ts, ∀ x ∈ t.ids, nid ≤ x ∧ x < m) ∧
